@@ -73,6 +73,15 @@ pub struct Scn {
     /// writers: error injected by the sink at this write call index
     #[serde(default)]
     pub sink_err_at: Option<usize>,
+    /// lzma2 reader: the stream was encoded with (and is decoded with) a preset dictionary
+    #[serde(default)]
+    pub preset: bool,
+    /// readers: this many bytes follow the end of the stream
+    #[serde(default)]
+    pub trailing: usize,
+    /// units made of incompressible data (LZMA2: stored as uncompressed chunks, control 0x01 / 0x02)
+    #[serde(default)]
+    pub unc: Vec<u64>,
 }
 
 // ------------------------------------------------------------------ policies
@@ -232,6 +241,10 @@ fn unit_data(u: usize, len: usize, class: Option<&str>, seed: u64) -> Vec<u8> {
     }
 }
 
+pub fn preset_dict() -> Vec<u8> {
+    gen::data("text", 2000, 77)
+}
+
 /// Builds an LZMA2 stream from the abstract chunk kinds; returns (stream, expected data per unit).
 pub fn build_lzma2_stream(s: &Scn) -> (Vec<u8>, Vec<Vec<u8>>) {
     let mut all = Vec::new();
@@ -239,15 +252,36 @@ pub fn build_lzma2_stream(s: &Scn) -> (Vec<u8>, Vec<Vec<u8>>) {
     let mut unit_starts: Vec<usize> = Vec::new();
     let mut w: Option<LZMA2Writer<Vec<u8>>> = None;
     let mut truncated = false;
+    let mut first_of_unit = 0usize;
+    let opts = |first: bool| {
+        let mut o = lzma2_opts();
+        if first && s.preset {
+            o.lzma_options.preset_dict = Some(preset_dict());
+        }
+        o
+    };
+    let chunk_data = |i: usize, unit_no: usize, first_i: usize| -> Vec<u8> {
+        if s.unc.contains(&(unit_no as u64)) {
+            gen::data("random", s.unit_len, s.seed.wrapping_add(i as u64 * 31 + 5))
+        } else if s.preset && unit_no == 0 && i == first_i {
+            // matches reach back into the preset dictionary
+            let p = preset_dict();
+            p[100..100 + s.unit_len.min(1500)].to_vec()
+        } else {
+            // a dependent chunk repeats its unit's first chunk, so its matches cross the chunk boundary
+            unit_data(first_i, s.unit_len, s.data_class.as_deref(), s.seed)
+        }
+    };
     for (i, k) in s.chunks.iter().enumerate() {
-        let d = unit_data(i, s.unit_len, s.data_class.as_deref(), s.seed);
         match k.as_str() {
             "I" => {
                 if let Some(ww) = w.take() {
                     all.extend(ww.into_inner());
                 }
                 unit_starts.push(all.len());
-                let mut nw = LZMA2Writer::new(Vec::new(), lzma2_opts());
+                first_of_unit = i;
+                let d = chunk_data(i, units.len(), first_of_unit);
+                let mut nw = LZMA2Writer::new(Vec::new(), opts(units.is_empty()));
                 nw.write_all(&d).unwrap();
                 nw.flush().unwrap();
                 w = Some(nw);
@@ -256,9 +290,11 @@ pub fn build_lzma2_stream(s: &Scn) -> (Vec<u8>, Vec<Vec<u8>>) {
             "D" => {
                 if w.is_none() {
                     unit_starts.push(all.len());
-                    w = Some(LZMA2Writer::new(Vec::new(), lzma2_opts()));
+                    first_of_unit = i;
+                    w = Some(LZMA2Writer::new(Vec::new(), opts(units.is_empty())));
                     units.push(Vec::new());
                 }
+                let d = chunk_data(i, units.len() - 1, first_of_unit);
                 let ww = w.as_mut().unwrap();
                 ww.write_all(&d).unwrap();
                 ww.flush().unwrap();
@@ -281,11 +317,12 @@ pub fn build_lzma2_stream(s: &Scn) -> (Vec<u8>, Vec<Vec<u8>>) {
     }
     if s.terminated && !truncated {
         all.push(0);
+        all.extend(gen::data("random", s.trailing, 99));
     }
     // deterministic decode failure of a unit: invalid props byte of its first (dictionary-reset) chunk
     for b in &s.bad {
         if let Some(&st) = unit_starts.get(*b as usize) {
-            assert!(all[st] >= 0xE0, "unit does not start with an LZMA chunk carrying props");
+            assert!(all[st] >= 0xC0, "unit does not start with an LZMA chunk carrying props");
             all[st + 5] = 0xFF;
         }
     }
@@ -298,6 +335,8 @@ pub fn build_lzip_stream(s: &Scn) -> (Vec<u8>, Vec<Vec<u8>>) {
     for (i, _k) in s.chunks.iter().enumerate() {
         let d = if s.empty.contains(&(i as u64)) {
             Vec::new()
+        } else if s.unc.contains(&(i as u64)) {
+            gen::data("random", s.unit_len, s.seed.wrapping_add(i as u64 * 31 + 5))
         } else {
             unit_data(i, s.unit_len, s.data_class.as_deref(), s.seed)
         };
@@ -327,6 +366,8 @@ struct Obs {
     unit_count: i64,
     compressed: Vec<u8>,
     call_results: Vec<String>,
+    st_ok: bool,
+    st_out: Vec<u8>,
 }
 
 struct FaultSink {
@@ -392,6 +433,24 @@ pub fn run_scenario(s: &Scn) -> Value {
             let o2 = obs.clone();
             let workers = s.workers;
             let drop_after = s.drop_after;
+            let preset = s.preset;
+            // single-threaded reference result for the same stream (the property is MT == ST)
+            {
+                let mut st_out = Vec::new();
+                let st_ok = if lz {
+                    match LZIPReader::new(stream.as_slice()) {
+                        Ok(mut r) => r.read_to_end(&mut st_out).is_ok(),
+                        Err(_) => false,
+                    }
+                } else {
+                    let pd = preset_dict();
+                    let mut r = LZMA2Reader::new(stream.as_slice(), MT_DICT, if preset { Some(pd.as_slice()) } else { None });
+                    r.read_to_end(&mut st_out).is_ok()
+                };
+                let mut o = obs.lock().unwrap();
+                o.st_ok = st_ok;
+                o.st_out = st_out;
+            }
             let buf_len = s.unit_len * (s.chunks.len() + 1) + 64;
             let r = verif_rt::run(policy, s.max_steps, move || {
                 let mut buf = vec![0u8; buf_len];
@@ -441,7 +500,13 @@ pub fn run_scenario(s: &Scn) -> Value {
                         }
                     }
                 } else {
-                    let mut r = LZMA2ReaderMT::new(stream.as_slice(), MT_DICT, None, workers);
+                    let pd = preset_dict();
+                    let mut r = LZMA2ReaderMT::new(
+                        stream.as_slice(),
+                        MT_DICT,
+                        if preset { Some(pd.as_slice()) } else { None },
+                        workers,
+                    );
                     drive!(r, r.chunk_count() as i64);
                     drop(r);
                 }
@@ -570,6 +635,10 @@ fn finish_result(s: &Scn, expected: &[Vec<u8>], rp: Report, g: &GRep, o: &Obs) -
         m.insert("reads_ok".into(), json!(o.reads_ok));
         m.insert("unit_count".into(), json!(o.unit_count));
         m.insert("expected_units".into(), json!(expected.len()));
+        m.insert("st_ok".into(), json!(o.st_ok));
+        m.insert("st_is_expected".into(), json!(o.st_out == all));
+        m.insert("mt_is_prefix_of_st".into(), json!(o.st_out.starts_with(&o.out)));
+        m.insert("mt_equals_st".into(), json!(o.st_out == o.out));
     } else {
         m.insert("call_results".into(), json!(o.call_results));
         m.insert("compressed_len".into(), json!(o.compressed.len()));
